@@ -604,3 +604,61 @@ package desync
 //@ func (l *sparseFileLoader) stateFromReader
 //@   prop C10
 //@   ensures r1 == nil ==> 8*len(r0) >= len(l.chunks) && len(r0) == (len(l.chunks) + 7) / 8
+
+// ---------------------------------------------------------------------------- C19: decoders survive arbitrary input
+//# No precondition on the input stream: every slice/index bound, make length and allocation size
+//# below must hold for all header words. alloc: an input-derived allocation is at most 1 MiB.
+
+//@ ghost var $consumed int
+
+//@ func (r reader) ReadN
+//@   prop C19
+//@   checks alloc
+//@   modifies $consumed
+//@   ensures err == nil ==> len(r0) == n && $consumed == old($consumed) + n
+//@   ensures $consumed >= old($consumed) && ($consumed == old($consumed) || $consumed < 1<<40)
+//@   loop 1: invariant len(b) + n == old(n) && n >= 0 && $consumed == old($consumed) + len(b) && ($consumed == old($consumed) || $consumed < 1<<40)
+
+//@ func (d *FormatDecoder) readString
+//@   prop C19
+//@   checks alloc
+//@   modifies $consumed
+//@   ensures $consumed >= old($consumed) && ($consumed == old($consumed) || $consumed < 1<<40)
+
+//@ func (d *FormatDecoder) Next
+//@   prop C19
+//@   checks alloc
+//@   requires $consumed >= 0
+//@   modifies all, $consumed
+//@   ensures $consumed >= old($consumed) && ($consumed == old($consumed) || $consumed < 1<<40)
+//# a decoded table or goodbye list is never longer than the input that was read for it
+//@   ensures r1 == nil && is(r0, FormatTable) ==> 40 * len(as(r0, FormatTable).Items) <= $consumed - old($consumed)
+//@   ensures r1 == nil && is(r0, FormatGoodbye) ==> 24 * len(as(r0, FormatGoodbye).Items) <= $consumed - old($consumed)
+//@   loop 1: invariant 24 * len(items) <= $consumed - old($consumed) && $consumed >= old($consumed) && ($consumed == old($consumed) || $consumed < 1<<40) && len(items) == i && hdr.Size >= 16 && n == (hdr.Size - 16) / 24
+//@   loop 2: invariant 40 * len(items) <= $consumed - old($consumed) && $consumed >= old($consumed) && ($consumed == old($consumed) || $consumed < 1<<40)
+
+//@ func (p *Protocol) ReadMessage
+//@   prop C19
+//@   checks alloc
+//@   modifies all, $consumed
+//@   ensures $consumed >= old($consumed)
+//@   ensures r1 == nil ==> len(r0.Body) + 16 <= $consumed - old($consumed)
+
+//@ func IndexFromReader
+//@   prop C19
+//@   checks alloc
+//@   requires $consumed >= 0
+//@   modifies all, $consumed
+
+//@ func (a *ArchiveDecoder) Next
+//@   prop C19
+//@   checks alloc
+//@   requires $consumed >= 0
+//@   modifies all, $consumed
+//@   loop 1: invariant $consumed >= 0
+
+//# the server allocates for chunk data coming from its own store, not from the request stream
+//@ func (s *ProtocolServer) Serve
+//@   prop C19
+//@   requires $consumed >= 0
+//@   loop 1: invariant $consumed >= 0
